@@ -22,6 +22,10 @@ BUDGET = {"quick": 420, "thorough": 2400}
 
 
 def bounds(tier):
+    return _bounds(tier) + "; probe sub-spaces (shapes <=3 ops, (2,2), (2,1,1), M<=2): every not-ready request in every state on a replica"
+
+
+def _bounds(tier):
     if tier == "quick":
         return ("shapes: every ordered job-length vector with <=3 jobs and <=4 operations; machines: every "
                 "assignment with M<=2 (non-flexible) x filters {none, 4 built-ins, default pair}; every non-empty "
